@@ -14,6 +14,7 @@ package command
 //@   modifies ghost taken, ghost held
 //@   trusted sync.Map.LoadOrStore is atomic: take succeeds iff no other request holds the key
 //@ func (*command.Referencer).release
+//@   requires held[refKey(ref, key)]      // C07 C10 C11: a request releases only a reservation it holds (releasing another request's would let a third one in)
 //@   update held = remove(held, refKey(ref, key))
 //@   modifies ghost held
 //@   trusted sync.Map.Delete
